@@ -137,3 +137,18 @@ EXTRA["C01"] = [
       "        rbin = s.read(rlength)\n        if len(rbin) > 1 and rbin[0] == 0 and rbin[1] < 0x80:\n            raise RuntimeError(\"non-minimal\")\n        r = int(rbin.hex(), 16)\n",
       ["C01.12"], "correct minimal-encoding check: never fires on encoder output"),
 ]
+
+
+# the repairs F32-F35 undone: each rule must report the tree as it was before the fix
+EXTRA["C11"] = EXTRA.get("C11", []) + [
+    M("witness-utxo-legacy-p2sh-keys-unchecked", "psbt.py", "            elif self.redeem_script:\n                # p2sh whose RedeemScript is not a witness program\n                for sec in self.named_pubs.keys():\n                    try:\n                        # this will raise a ValueError if it's not in there\n                        self.redeem_script.commands.index(sec)\n                    except ValueError:\n                        raise ValueError(f\"pubkey is not in RedeemScript {self}\")\n        else:\n            # non-witness input\n",
+      "        else:\n            # non-witness input\n", ["C11.12"], "legacy redeem script + witness UTXO: keys never tied to the script"),
+    M("utxo-records-not-compared", "psbt.py", "            if self.prev_out and (\n                self.prev_out.serialize()\n                != self.prev_tx.tx_outs[self.tx_in.prev_index].serialize()\n            ):\n                raise ValueError(\n                    \"witness UTXO does not match the output of the previous transaction\"\n                )\n",
+      "", ["C11.14"], "both UTXO records present and never compared"),
+    M("witness-script-any-spk", "psbt.py", "                if not script_pubkey.is_p2wsh():\n                    raise KeyError(\"WitnessScript included in non-p2wsh output\")\n", "",
+      ["C11.13"], "witness script accepted for OP_1 <hash>"),
+]
+EXTRA["C06"] = EXTRA.get("C06", []) + [
+    M("p2sh-witness-extra-scriptsig", "script.py", "                    if (\n                        len(stack) > 0\n                        and len(redeem_commands) == 2\n                        and redeem_commands[0] == 0\n                        and isinstance(redeem_commands[1], bytes)\n                        and len(redeem_commands[1]) in (20, 32)\n                    ):\n                        print(\"extra items in the ScriptSig of a p2sh witness program\")\n                        return False\n",
+      "", ["C06.14"], "junk in front of the redeem script of a p2sh witness program"),
+]
